@@ -199,6 +199,16 @@ func (o *Obligation) script(eng *Engine, withModel bool) string {
 			}
 		}
 	}
+	if used["comparable"] {
+		var ids []int64
+		for id := range typeTagTypes {
+			ids = append(ids, id)
+		}
+		sort.Slice(ids, func(i, j int) bool { return ids[i] < ids[j] })
+		for _, id := range ids {
+			asserts = append(asserts, Eq(App("comparable", SBool, Num(id)), BoolT(types.Comparable(typeTagTypes[id]))))
+		}
+	}
 	// heap well-typedness for byte storage: every version of the stream-data ghost map and of the
 	// []byte backing-array map, and every element array created for them, holds values in 0..255
 	{
